@@ -176,7 +176,10 @@ fn apply(w: &mut World, h: usize, x: &Hostile) {
                     let k = *pr.pick(&[1usize, 5, 100, 250, 254, 255]);
                     let total = *pr.pick(&[255usize, 256]);
                     let at = pr.usize(txt.len() + 1);
-                    txt.insert(at, ("L".repeat(k), Some(vec![b'v'; total.saturating_sub(k + 1)])));
+                    // (text or bytes that are no text at all: the limit is on bytes)
+                    let fill = if pr.chance(1, 2) { b'v' } else { 0xFF };
+                    let extra = if fill == 0xFF && pr.chance(1, 2) { 50 } else { 0 };
+                    txt.insert(at, ("L".repeat(k), Some(vec![fill; total.saturating_sub(k + 1) + extra])));
                 }
             }
             let mut reg = World::reg_info(ty, inst, host, &addrs, *port, &[]);
